@@ -71,7 +71,7 @@ META = {
              "buckets are always a duplicate-free permutation of the accepted ids (exactly_once), after FlushAllData the ring is empty and each "
              "accepted id is in the pushed buckets exactly once (delivered_exactly_once); every delivered event sits in a bucket whose second is "
              ">= its clamped timestamp, its stored timestamp is the clamped one rounded down to the resolution, and the bucket second equals the "
-             "slot chosen at placement plus 128 s per jump-ahead lap (delivered_not_early, from slot_in_window: send <= slot < send+superQueueLen "
+             "slot chosen at placement plus 128 s per jump-ahead lap (delivered_not_early, from slot_in_window / accepted_slot_within_ring — the ring-capacity arithmetic over the regenerated constants, with the literal 119 as decide witness of a wrap: send <= slot < send+superQueueLen "
              "whenever gap <= 0 and the resolution is allowed; sharpness witnesses show gap=1 or one more future slot would wrap the ring). "
              "placement_deterministic / same_second_on_all_agents: not late and not future-clamped => slot and stored timestamp are functions of "
              "(resolution, hash, timestamp) only; ov_cache_independent / ov_order_independent / resolution_hash_input_independent: the hashed bytes "
